@@ -308,6 +308,31 @@ func genLokiBig(r *rand.Rand, c *Case, kind int) {
 	}
 }
 
+// genLokiLong: streams of 999 / 1000 / 1500 / 2500 short entries in one push (a decoder that hands a stream over in portions must
+// hand every portion over with the stream's own labels, wherever the label key stands in the stream object)
+func genLokiLong(r *rand.Rand, c *Case, keyOrder string) {
+	c.Class = "long-streams+" + keyOrder
+	c.KeyOrder = keyOrder
+	ns := []int{flushLimit - 1, flushLimit, flushLimit + flushLimit/2, 2*flushLimit + flushLimit/2}
+	r.Shuffle(len(ns), func(i, j int) { ns[i], ns[j] = ns[j], ns[i] })
+	for i, n := range ns {
+		s := LStream{Labels: []KV{{"app", Str(fmt.Sprintf("long%d", i))}, {"job", "j"}}}
+		if i == 1 {
+			s.Labels = withTTL(r, s.Labels, true)
+		}
+		t := genTs(r, 0)
+		for j := 0; j < n; j++ {
+			t += int64(1 + r.Intn(1000))
+			e := LEntry{Ts: t, Line: sp(fmt.Sprintf("l%d", j))}
+			if j%500 == 7 {
+				e.Val = fp64(float64(j))
+			}
+			s.Entries = append(s.Entries, e)
+		}
+		c.Body.Loki = append(c.Body.Loki, s)
+	}
+}
+
 func genPrw(r *rand.Rand, c *Case, kind int) {
 	mk := func(i int, n int) PSeries {
 		s := PSeries{Labels: []KV{{"__name__", Str(pick(r, []string{"up", "http_requests_total", "go:gc", "9bad"}))}, {"instance", Str(fmt.Sprintf("i%d", i))}}}
@@ -440,7 +465,11 @@ func genInflux(r *rand.Rand, c *Case) {
 		if r.Intn(4) == 0 {
 			l.Fields = []IField{{Name: "message", Kind: "str", S: Str(pick(r, []string{"hello world", "x", "a=b c", "with \"quotes\"", "über", "null", "tab\there", "back\\slash", ""}))}}
 			flag(c, "message")
-			if r.Intn(2) == 0 {
+			if r.Intn(8) == 0 {
+				// the only field, and not a string: rendered as message=<value>
+				l.Fields[0] = IField{Name: "message", Kind: pick(r, []string{"int", "uint", "bool"}), I: int64(r.Intn(2000))}
+				flag(c, "single-non-string-message")
+			} else if r.Intn(2) == 0 {
 				// further fields: the text of the row is their logfmt rendering, "message" first, the others in Go's map order
 				flag(c, "message-with-fields")
 				if r.Intn(6) == 0 {
@@ -736,7 +765,7 @@ func genOtlp(r *rand.Rand, c *Case) {
 }
 
 func reserved(i int) bool {
-	return i%400 == 209 || i%400 == 309 || i%200 == 3 || i%400 == 9 || i%1000 == 501 || i%100 == 51 || i%40 == 2 || i%50 == 31
+	return i%400 == 109 || i%400 == 259 || i%400 == 209 || i%400 == 309 || i%200 == 3 || i%400 == 9 || i%1000 == 501 || i%100 == 51 || i%40 == 2 || i%50 == 31
 }
 
 // genHistory draws a HISTORY: 2..5 bodies decoded one after another in this process (same parser objects, and for
@@ -860,6 +889,12 @@ func gen(r *rand.Rand, i int) Case {
 		c.Cache = "set"
 	}
 	switch {
+	case i%400 == 109:
+		c.Proto = "loki_json"
+		genLokiLong(r, &c, "entries-first")
+	case i%400 == 259:
+		c.Proto = "loki_json"
+		genLokiLong(r, &c, "labels-first")
 	case i%400 == 209:
 		c.Proto = "prw"
 		genPrw(r, &c, 8)
